@@ -507,6 +507,15 @@ func runC06(c *CaseCtx) (res CaseResult) {
 				res.obs("cases_with_a_self_referential_value", 1)
 			}
 		}
+		if c.Idx%20 == 11 {
+			// a generator that manufactures, for every value it is shown, a
+			// converter to a NEW type (slice of the value's type): the
+			// generator pass must still come to an end
+			cyc = append(cyc, am.ConverterGen(addressOfGenerator))
+			if k == 0 {
+				res.obs("cases_with_a_type_manufacturing_generator", 1)
+			}
+		}
 		// Call
 		o := DoCall(in.W, in.Target.Func, append(in.AllArgs(0, r), cyc...))
 		note("call", &o)
@@ -556,8 +565,8 @@ func runC06(c *CaseCtx) (res CaseResult) {
 // runC06Malformed: malformed options must be ignored or reported, never panic.
 func runC06Malformed(c *CaseCtx, r *rand.Rand) (res CaseResult) {
 	s, _ := genExact(r, r.Intn(2) == 0)
-	kind := r.Intn(14)
-	kinds := []string{"nil-option", "named-nil", "typed-nil", "converterfunc-nil", "converter-42", "converter-nil", "gen-error", "gen-nil-nil", "newfunc-nonfunc", "gen-nil-func", "logger-nil", "converter-typed-nil-func", "filter-combinator-nil", "filter-type-nil"}
+	kind := r.Intn(15)
+	kinds := []string{"nil-option", "named-nil", "typed-nil", "converterfunc-nil", "converter-42", "converter-nil", "gen-error", "gen-nil-nil", "newfunc-nonfunc", "gen-nil-func", "logger-nil", "converter-typed-nil-func", "filter-combinator-nil", "filter-type-nil", "converter-typed-nil-funcptr"}
 	res.Key = kinds[kind] + " " + s.Key()
 	res.NonTrivial = true
 	res.obs("malformed_cases", 1)
@@ -592,6 +601,9 @@ func runC06Malformed(c *CaseCtx, r *rand.Rand) (res CaseResult) {
 	case 11:
 		// a nil value of a function type is not a function to call
 		bad, wantErr = am.Converter((func(T4) T5)(nil)), true
+	case 14:
+		// a nil *Func is not a function either
+		bad, wantErr = am.Converter((*am.Func)(nil)), true
 	case 12:
 		// nil filter functions inside the combinators (Redefine applies
 		// the filters; for Call and Convert the option has no effect)
@@ -701,4 +713,19 @@ func selfRefNode() *xCycNode {
 	n := &xCycNode{Tag: "self"}
 	n.Next = []interface{}{n, map[string]interface{}{"n": n}}
 	return n
+}
+
+// addressOfGenerator returns, for a value of type T, a converter func(T) []T
+// (a new type per value it is shown; slices have no methods, so the new
+// values satisfy nothing in the universe and the model is unchanged).
+func addressOfGenerator(v am.Value) (*am.Func, error) {
+	if v.Type == nil {
+		return nil, nil
+	}
+	st := reflect.SliceOf(v.Type)
+	ft := reflect.FuncOf([]reflect.Type{v.Type}, []reflect.Type{st}, false)
+	fn := reflect.MakeFunc(ft, func(args []reflect.Value) []reflect.Value {
+		return []reflect.Value{reflect.Append(reflect.MakeSlice(st, 0, 1), args[0])}
+	})
+	return am.NewFunc(fn.Interface())
 }
